@@ -190,7 +190,8 @@ def genInterval : Gen Val := do
     | 0 => Gen.oneOf [1, 30, 31, 365, 2147483647]
     | _ => Gen.below 100000)
   let us ← sgn (do match ← Gen.below 3 with
-    | 0 => Gen.oneOf [1, 999999, 1000000, 59000000, 60000000, 3599000000, 3600000000, 86400000000, 9223372036854775807]
+    | 0 => Gen.oneOf [1, 10, 100000, 500000, 999999, 1000000, 1000001, 1500000, 59000000, 59999999, 60000000, 3599000000,
+        3600000000, 3600000001, 86400000000, 9223372036854775807]
     | _ => Gen.below (10 ^ 13))
   return .interval months days us
 
@@ -229,12 +230,24 @@ def genIds : Gen Val := do
       return .tid (h * 65536 + h) (← genUnsigned 16)
     return .tid (← genUnsigned 32) (← genUnsigned 16)
   | 4 | 5 =>
-    let c ← match ← Gen.below 4 with
+    -- money: the whole int64 range (fix 11).  Boundary values: around 10^15 and 2^46·100 (where the former float
+    -- formatting first went wrong), 2^53 (float64 integer precision), the ends of int64
+    let c ← match ← Gen.below 6 with
       | 0 => do
-        let v ← Gen.oneOf [0, 1, 5, 99, 100, 101, 1234, 999999999999999, 450359962737049, 900719925474099]
+        let v ← Gen.oneOf [0, 1, 5, 99, 100, 101, 1234, 999999999999999, 450359962737049, 900719925474099,
+          1000000000000000, 1000000000000001, 7036874417766399, 7036874417766400, 7036874417766401, 7036874417766402,
+          9007199254740991, 9007199254740992, 9007199254740993, 9223372036854775807, 9223372036854775806,
+          9223372036854775800, 9223372036854775799, 4611686018427387904, 99999999999999999, 100000000000000049, 100000000000000050]
         pure (v : Int)
-      | _ => do pure ((Int.ofNat (← Gen.below (2 * 10 ^ 15 - 1))) - (10 ^ 15 - 1 : Nat))
+      | 1 => do pure ((Int.ofNat (← Gen.below (2 * 10 ^ 15 - 1))) - (10 ^ 15 - 1 : Nat))
+      | 2 => genSigned 64
+      | 3 => do
+        -- just above a power of two times 100, ± a few cents
+        let k ← Gen.range 44 62
+        pure ((2 ^ k : Nat) + (Int.ofNat (← Gen.below 200)) - 100)
+      | _ => do pure ((Int.ofNat (← Gen.below (2 ^ 64))) - (2 ^ 63 : Nat))
     let c ← if ← Gen.prob 1 3 then pure (-c) else pure c
+    let c := if c < -9223372036854775808 then -9223372036854775808 else if c > 9223372036854775807 then 9223372036854775807 else c
     return .money c
   | 6 => return .macaddr (← Gen.bytes 6)
   | 7 => return .macaddr8 (← Gen.bytes 8)
